@@ -35,7 +35,7 @@ COMPILER_REPLAYS = {
     "u_binop": ["replay/c09/short_circuit.sh"],
     "u_dcefx": ["replay/c10/dead_division.sh"],
     "u_strlit": ["replay/c11/run.sh"],
-    "u_dynvis": ["replay/c17/run.sh"],
+    "u_dynvis": ["replay/c17/run.sh", "replay/c17/dyn_coerce.sh"],
     "u_dceblk": ["replay/c09/run.sh"],
     "u_rows": ["replay/c06/run.sh", "replay/c06/struct_fields.sh", "replay/c06/string_no_default.sh"],
     "u_loadpkg": ["replay/c16/run.sh", "replay/c16/reserved_builtin.sh", "replay/c13/relpath.sh", "replay/c12/sibling_parse_error.sh"],
